@@ -304,3 +304,14 @@ def params_of(fn) -> tuple[list[str], list, str | None, str | None, list[str], l
     pos = [x.arg for x in a.posonlyargs + a.args]
     return pos, list(a.defaults), (a.vararg.arg if a.vararg else None), (a.kwarg.arg if a.kwarg else None), \
         [x.arg for x in a.kwonlyargs], list(a.kw_defaults)
+
+
+def returned_expr(fn):
+    """the expression a function returns when it has a single return: follows `tmp = <expr>; return tmp` (one local, assigned once)"""
+    rets = [r for r in ast.walk(fn) if isinstance(r, ast.Return) and r.value is not None]
+    if len(rets) != 1: return None
+    v = rets[0].value
+    if isinstance(v, ast.Name):
+        assigns = [a for a in ast.walk(fn) if isinstance(a, ast.Assign) and len(a.targets) == 1 and isinstance(a.targets[0], ast.Name) and a.targets[0].id == v.id]
+        if len(assigns) == 1: return assigns[0].value
+    return v
